@@ -5,7 +5,7 @@ from .. import engine as E
 from .. import catalogue as K
 from .. import tys as T
 
-THEOREMS = []
+THEOREMS = ["c14_first_report", "c14_ok_same"]
 
 
 def float_bits(p, acc):
